@@ -18,7 +18,7 @@ from typing import Dict, List
 
 import deep.logging
 from deep.api.plugin import load_plugins
-from deep.api.resource import Resource
+from deep.api.resource import Resource, SERVICE_NAME
 from deep.api.tracepoint.tracepoint_config import MetricDefinition
 from deep.config import ConfigService
 from deep.config.tracepoint_config import TracepointConfigService
@@ -62,7 +62,11 @@ class Deep:
             try:
                 plugin_resource = provider.resource()
                 if plugin_resource:
-                    default_resource = default_resource.merge(plugin_resource)
+                    merged = default_resource.merge(plugin_resource)
+                    if not merged.attributes.get(SERVICE_NAME):
+                        # an empty service name is no service name (as in Resource.create): keep the one we have
+                        merged = merged.merge(Resource({SERVICE_NAME: default_resource.attributes.get(SERVICE_NAME)}))
+                    default_resource = merged
             except Exception:
                 deep.logging.exception("Failed to process plugin resource {}", provider.name)
 
